@@ -90,6 +90,7 @@ type layer struct {
 	kind string // base cache prefix gas trace
 	pfx  []byte
 	st   stypes.KVStore
+	ms   stypes.CacheMultiStore // set when the cache layer is a cache multistore's wrapper: Write goes through the multistore
 }
 
 type traceBuf struct{ lines []string }
@@ -234,14 +235,18 @@ func runProgram(r *rng.R, pid int, wo, wi *bufio.Writer) {
 	if viaCacheMulti {
 		// level 1 = cachemulti over the base store, level 2 = level1.CacheMultiStore(); every level wraps each store as
 		// cache-over-trace. The two trace layers stay addressable through equivalent (stateless) instances.
-		key := stypes.NewKVStoreKey("k")
+		var key stypes.StoreKey = stypes.NewKVStoreKey("k")
+		if r.Bool() { // the key type a transient substore is mounted under
+			key = stypes.NewTransientStoreKey("k")
+			stats["built/cachemulti-transient-key"]++
+		}
 		base := layers[0].st
 		l1 := cachemulti.NewStore(db, map[stypes.StoreKey]stypes.CacheWrapper{key: base}, map[string]stypes.StoreKey{"k": key}, tb, nil)
 		st1 := l1.GetKVStore(key)
 		l2 := l1.CacheMultiStore()
 		st2 := l2.GetKVStore(key)
-		layers = append(layers, layer{kind: "trace", st: tracekv.NewStore(base, tb, nil)}, layer{kind: "cache", st: st1},
-			layer{kind: "trace", st: tracekv.NewStore(st1, tb, nil)}, layer{kind: "cache", st: st2})
+		layers = append(layers, layer{kind: "trace", st: tracekv.NewStore(base, tb, nil)}, layer{kind: "cache", st: st1, ms: l1},
+			layer{kind: "trace", st: tracekv.NewStore(st1, tb, nil)}, layer{kind: "cache", st: st2, ms: l2})
 		desc = append(desc, "trace", "cache", "trace", "cache")
 		kinds = nil
 		stats["built/cachemulti-two-levels"]++
@@ -454,7 +459,12 @@ func runProgram(r *rng.R, pid int, wo, wi *bufio.Writer) {
 			for h := range iters {
 				iters[h].it = nil
 			}
-			emit(fmt.Sprintf("W %d", rel), try(func() string { st.(stypes.CacheKVStore).Write(); return "ok" }))
+			if ms := layers[d].ms; ms != nil && r.Chance(2, 3) {
+				emit(fmt.Sprintf("W %d", rel), try(func() string { ms.Write(); return "ok" }))
+				stats["op/W-through-the-cache-multistore"]++
+			} else {
+				emit(fmt.Sprintf("W %d", rel), try(func() string { st.(stypes.CacheKVStore).Write(); return "ok" }))
+			}
 		default: // consume gas directly (drives the meter towards its limit / overflow)
 			if !hasGas {
 				continue
